@@ -53,6 +53,13 @@ def check(ctx, case):
 	genomes = T.build_genomes(taxa, gtax)
 	gix = T.idx_of(genomes)
 	try:
+		if case.get('prev_perm') is not None:
+			# the same list object was used for an earlier call in another order, then rearranged in place
+			inv = case['prev_perm']
+			cur = list(genomes)
+			genomes[:] = [cur[i] for i in inv]
+			classify(genomes, np.array([case['dists'][i] for i in inv], dtype=np.float32), strict=True)
+			genomes[:] = cur
 		res = classify(genomes, dists, strict=True)
 	except Exception as e:
 		return [], [f'classify(strict=True) raised {exc_kind(e)}: {e}']
@@ -123,3 +130,6 @@ def run(ctx):
 		perms = list(itertools.permutations(range(ng))) if ng <= 4 else [rng.sample(range(ng), ng) for _ in range(6)]
 		for p in perms[:24]:
 			sub({'kind': 'classify', 'parent': parent, 'thr': thr, 'gtax': [gtax[i] for i in p], 'dists': [dists[i] for i in p]}, 'classify-permuted')
+		if ng >= 2:
+			pp = rng.sample(range(ng), ng)
+			sub({'kind': 'classify', 'parent': parent, 'thr': thr, 'gtax': gtax, 'dists': dists, 'prev_perm': pp}, 'classify-list-reused')
